@@ -148,6 +148,31 @@ def _eval(ff: FuncFacts, e: ast.expr, at: int, env: dict, depth=0):
     raise ValueError
 
 
+def kernel_labels(chk):
+    """dimension labels given to the two matrices returned by the whitening kernel (output_core_dims of the apply_ufunc
+    call in Whitener._compute_whitener_transform): [[...T...], [...Tinv...]] over {'feature', 'mode', '?'}"""
+    from .common import call_kwargs as _ck, inline_locals as _il
+    wh = chk.pm.cls("xeofs.preprocessing.whitener.Whitener")
+    cw = wh.methods.get("_compute_whitener_transform")
+    chk.require(cw is not None, "Whitener._compute_whitener_transform vanished")
+    cwf = FuncFacts.of(cw)
+    au = [x for x in cwf.calls() if (dotted(x.func) or "").endswith("apply_ufunc")]
+    chk.require(len(au) == 1, "Whitener._compute_whitener_transform: apply_ufunc call vanished")
+    oc = _ck(au[0]).get("output_core_dims")
+    oc = _il(cwf, oc) if isinstance(oc, ast.Name) else oc
+    lab = []
+    if isinstance(oc, (ast.List, ast.Tuple)):
+        for e in oc.elts:
+            row = []
+            for x in (e.elts if isinstance(e, (ast.List, ast.Tuple)) else []):
+                xs = {p.atom.name for p in cwf.paths(x, spine_only=True)} if not isinstance(x, ast.Constant) else {repr(x.value)}
+                if is_self_attr(x):
+                    xs.add("self." + x.attr)
+                row.append("feature" if "self.feature_name" in xs else "mode" if xs == {"'mode'"} else "?")
+            lab.append(row)
+    return lab, cw, au[0]
+
+
 def _kernel(chk, wh):
     pm = chk.pm
     fn = wh.methods.get("_compute_whitener_transform_numpy")
@@ -202,25 +227,8 @@ def _kernel(chk, wh):
               construct="self.T, self.Tinv = self._compute_whitener_transform(X)", why="fit must store (T, Tinv) in the order the kernel returns them")
     # labelling of the two matrices the kernel returns: T maps features to modes, Tinv modes to features; every map
     # contracts by NAME, so a matrix labelled the other way round is applied transposed (complex data: conj(Tinv) != Tinv)
-    cw = wh.methods.get("_compute_whitener_transform")
-    chk.require(cw is not None, "Whitener._compute_whitener_transform vanished")
-    cwf = FuncFacts.of(cw)
-    au = [x for x in cwf.calls() if (dotted(x.func) or "").endswith("apply_ufunc")]
-    chk.require(len(au) == 1, "Whitener._compute_whitener_transform: apply_ufunc call vanished")
-    from .common import call_kwargs as _ck, inline_locals as _il
-    oc = _ck(au[0]).get("output_core_dims")
-    oc = _il(cwf, oc) if isinstance(oc, ast.Name) else oc
-    lab = []
-    if isinstance(oc, (ast.List, ast.Tuple)):
-        for e in oc.elts:
-            row = []
-            for x in (e.elts if isinstance(e, (ast.List, ast.Tuple)) else []):
-                xs = {p.atom.name for p in cwf.paths(x, spine_only=True)} if not isinstance(x, ast.Constant) else {repr(x.value)}
-                if is_self_attr(x):
-                    xs.add("self." + x.attr)
-                row.append("feature" if "self.feature_name" in xs else "mode" if xs == {"'mode'"} else "?")
-            lab.append(row)
-    chk.check(lab == [["feature", "mode"], ["mode", "feature"]], "ADJOINT.inverse.labels", cw, au[0], construct="kernel outputs labelled T: (feature, mode), Tinv: (mode, feature)",
+    lab, cw, call = kernel_labels(chk)
+    chk.check(lab == [["feature", "mode"], ["mode", "feature"]], "ADJOINT.inverse.labels", cw, call, construct="kernel outputs labelled T: (feature, mode), Tinv: (mode, feature)",
               why=f"the matrices returned by the kernel are labelled {lab}: all maps contract by dimension name, so a wrongly labelled matrix is applied transposed - "
                   "for complex data un-whitening then uses conj(Tinv)")
     # rebuild V diag(s**p) V^H
